@@ -96,7 +96,7 @@ def check_config(cfg, w, rep):
     # ---- (c) data writes only into the temp handle (or a mapping of it) or an append-only bucket ----
     n_w = 0
     for e in w.inv.effects:
-        if e.kind not in ("WriteData", "WriteFile", "Fallocate"):
+        if e.kind not in ("WriteData", "WriteFile", "Fallocate", "HandleMut"):
             continue
         n_w += 1
         lf = effect_fn(w, e)
